@@ -131,7 +131,13 @@ let paths_line l =
         else name in
       let parts = String.split_on_char '/' name in
       let port = String.concat "/" (portion_after_sep parts (nat_of_int (int_of_string occ))) in
-      print_endline (r ^ "\t" ^ port)
+      (* the sort key of diagnostics: AbsFromCwd of the cwd-relative name *)
+      let key =
+        if String.length name > 0 && name.[0] = '/' then
+          "/" ^ String.concat "/" (List.map (fun s -> Hashtbl.find seg_names (int_of_nat s))
+                 (abs_from_cwd (segs_of cwd) (rel_to_cwd (segs_of cwd) (Abs (segs_of name)))))
+        else "" in
+      print_endline (r ^ "\t" ^ port ^ "\t" ^ key)
   | _ -> print_endline "?"
 
 
